@@ -202,6 +202,8 @@ def _check_emission(run: Run, prog: Program, model: Model, st: SchemaType, ta: T
     binds: Dict[str, str] = {}
     shown = re.sub(r"\s+", " ", text)[:120]
     cfg_vals = cfg.build()
+    replayed: List[str] = []
+    by_key = {sh.key: sh for sh in ta.shapes}
     for mname, args in steps:
         labels = [arg_label(a) for a in args]
         meth = st.cls.methods.get(mname)
@@ -232,6 +234,7 @@ def _check_emission(run: Run, prog: Program, model: Model, st: SchemaType, ta: T
             run.violated("EMIT-REPLAY", construct, site, f"{mname} emitted with {len(args)} arguments: {shown}", witness="eval raises TypeError")
             return
         lab = f"{disp}(" + ", ".join("..." if l == "..." else params[i] for i, l in enumerate(labels)) + ")"
+        replayed.append(lab)
         outs = ta.trans.get((state, lab))
         if outs is None:
             run.undecided("EMIT-REPLAY", construct, site, f"step {lab} in state {sorted(state)} is not in the extracted automaton")
@@ -268,6 +271,24 @@ def _check_emission(run: Run, prog: Program, model: Model, st: SchemaType, ta: T
     if problems:
         run.violated("EMIT-REPLAY", construct, site, "; ".join(problems) + f": {shown}", witness="the text does not evaluate to the same value")
         return
+    # the text replays the refinements in the representor's order; the schema may have been declared in any other order:
+    # whatever value conditions another order accepts under, the emitted order must accept under too
+    if len(replayed) >= 2 and len(replayed) <= 4 and all(k in by_key for k in replayed):
+        import itertools as _it
+        from .c11 import describe, simulate
+        pi = tuple(by_key[k] for k in replayed)
+        mine = simulate(ta, frozenset(), pi)
+        for sigma in _it.permutations(pi):
+            if sigma == pi:
+                continue
+            other = simulate(ta, frozenset(), sigma)
+            lost = [o for o in other if o not in mine and "<limit>" not in o[0]]
+            if lost:
+                run.violated("EMIT-REPLAY", construct, site,
+                             f"declared as {' -> '.join(s_.label for s_ in sigma)} the schema exists under [{describe(frozenset(lost))[:150]}], "
+                             f"but its repr replays {' -> '.join(s_.label for s_ in pi)}, which accepts only under [{describe(mine)[:150]}]",
+                             witness=f"eval(repr(s)) raises DeclarationError for an s declared in the other order ({shown})")
+                return
     run.holds("EMIT-REPLAY", construct, site, f"`{shown}` replays to exactly {{{','.join(sorted(want))}}}",
               nontrivial=len(want) >= 2 or bool(cfg.overrides))
 
